@@ -234,6 +234,7 @@ type Engine struct {
 	replayCache   map[string]*replayResult
 	lastParams    []*Val
 	stableFields  []string
+	tracked       map[string]bool // tracked struct types (typeStr form) for this property
 }
 
 func (e *Engine) logAbs(format string, a ...interface{}) {
@@ -529,8 +530,47 @@ func (x *fnCtx) addVC(st *State, fnShort, kind string, ord int, sub string, goal
 	if x.abstracted {
 		ob.Abstracted = true
 	}
-	vc := &VC{Assumps: append([]*Term(nil), st.pc...), Goal: goal, From: st.from}
-	ob.VCs = append(ob.VCs, vc)
+	budget := 16
+	for _, g := range splitGoal(goal, &budget) {
+		vc := &VC{Assumps: append([]*Term(nil), st.pc...), Goal: g, From: st.from}
+		ob.VCs = append(ob.VCs, vc)
+	}
+}
+
+// splitGoal breaks a goal into conjuncts (through implications and universal quantifiers);
+// each part is discharged as its own query under the same assumptions.
+func splitGoal(g *Term, budget *int) []*Term {
+	if *budget <= 1 {
+		return []*Term{g}
+	}
+	switch {
+	case g.Kind == KBuiltin && g.Op == "and":
+		*budget -= len(g.Args) - 1
+		var out []*Term
+		for _, a := range g.Args {
+			out = append(out, splitGoal(a, budget)...)
+		}
+		return out
+	case g.Kind == KBuiltin && g.Op == "=>" && len(g.Args) == 2:
+		parts := splitGoal(g.Args[1], budget)
+		if len(parts) > 1 {
+			var out []*Term
+			for _, p := range parts {
+				out = append(out, Implies(g.Args[0], p))
+			}
+			return out
+		}
+	case g.Kind == KQuant && g.Op == "forall":
+		parts := splitGoal(g.Args[0], budget)
+		if len(parts) > 1 {
+			var out []*Term
+			for _, p := range parts {
+				out = append(out, TC.mk(KQuant, "forall", SBool, []*Term{p}, g.Bound, g.Pats))
+			}
+			return out
+		}
+	}
+	return []*Term{g}
 }
 
 // ---------------- heap access ----------------
@@ -708,6 +748,9 @@ func (x *fnCtx) newRef(st *State, hint string) *Term {
 	st.assume(Lt(IntLit(0), r))
 	x.setHeap(st, "$alloc", Store(alloc, r, True))
 	st.fresh[r] = true
+	if len(x.eng.tracked) > 0 && !strings.HasPrefix(hint, "new.") {
+		st.assume(Eq(Select(typeHeap, r), IntLit(0)))
+	}
 	return r
 }
 
@@ -737,6 +780,92 @@ func (x *fnCtx) assumeValAllocated(st *State, v *Val) {
 			x.assumeAllocated(st, v.L[i])
 		}
 	}
+	x.assumeDynType(st, v)
+}
+
+// typeHeap is the (immutable) map from references to the dynamic type of the object
+// they denote, as the interface tag of the pointer type; only tracked types are constrained.
+var typeHeap = Sym("$type", ArrSort(SInt, SInt))
+
+func trackedElem(e *Engine, t types.Type) (types.Type, bool) {
+	if len(e.tracked) == 0 {
+		return nil, false
+	}
+	p, ok := t.Underlying().(*types.Pointer)
+	if !ok {
+		return nil, false
+	}
+	if _, isNamed := p.Elem().(*types.Named); !isNamed {
+		return nil, false
+	}
+	if !e.tracked[typeStr(p.Elem())] {
+		return nil, false
+	}
+	return p.Elem(), true
+}
+
+// assumeDynType: Go's type safety: a non-nil *T refers to a T object; an interface whose
+// dynamic type is *T carries such a reference.
+func (x *fnCtx) assumeDynType(st *State, v *Val) {
+	if len(x.eng.tracked) == 0 || v.Tup != nil || len(v.L) == 0 {
+		return
+	}
+	if el, ok := trackedElem(x.eng, v.T); ok {
+		if !v.L[0].IsLit() {
+			st.assume(Or(Eq(v.L[0], IntLit(0)), Eq(Select(typeHeap, v.L[0]), IntLit(typeTag(types.NewPointer(el))))))
+		}
+		return
+	}
+	if _, ok := v.T.Underlying().(*types.Interface); ok && len(v.L) == 2 && !v.L[0].IsLit() {
+		for _, tg := range x.eng.trackedTags(nil) {
+			st.assume(Implies(Eq(v.L[0], IntLit(tg)), Eq(Select(typeHeap, v.L[1]), IntLit(tg))))
+		}
+	}
+}
+
+// trackedTags: the $type values of the named tracked types (all of them when names is nil)
+func (e *Engine) trackedTags(names []string) []int64 {
+	var out []int64
+	var keys []string
+	for name := range e.tracked {
+		keys = append(keys, name)
+	}
+	sort.Strings(keys)
+	for _, name := range keys {
+		if names != nil {
+			found := false
+			for _, n := range names {
+				if n == name {
+					found = true
+				}
+			}
+			if !found {
+				continue
+			}
+		}
+		i := strings.LastIndex(name, ".")
+		if i < 0 {
+			continue
+		}
+		for _, p := range e.prog.AllPackages() {
+			if p.Pkg.Name() != name[:i] || !strings.HasPrefix(p.Pkg.Path(), repoPrefix) {
+				continue
+			}
+			if obj := p.Pkg.Scope().Lookup(name[i+1:]); obj != nil {
+				out = append(out, typeTag(types.NewPointer(obj.Type())))
+			}
+		}
+	}
+	return out
+}
+
+// typeAmong: $type[r] is 0 (untracked) or one of tags
+func typeAmong(r *Term, tags []int64) *Term {
+	alts := []*Term{Eq(Select(typeHeap, r), IntLit(0))}
+	for _, tg := range tags {
+		alts = append(alts, Eq(Select(typeHeap, r), IntLit(tg)))
+	}
+	return Or(alts...)
 }
 
 // havocHeap replaces the named heap array by a fresh one.
